@@ -94,6 +94,13 @@ class LemmaSet:
         s.add(z3.Not(cond))
         t0 = time.time()
         r = s.check()
+        if r == z3.unknown:
+            s = z3.Solver()                 # one retry, fresh solver, twice the time
+            s.set("timeout", 2 * self.query_timeout_ms)
+            s.add(*pc)
+            s.add(*self.ex.tc.assumptions)
+            s.add(z3.Not(cond))
+            r = s.check()
         self.ex.queries += 1
         self.ex.solver_time += time.time() - t0
         self._cross_check(s, r, what)
